@@ -35,6 +35,11 @@ def main(ctx):
         J.append({'mod': 'vf.harness.c14', 'fn': 'fill', 'mode': 'sym', 'args': {'method': method, 'H': 2, 'W': 2, 'cap': cap, 'prefix': [False]}})
     for m in ('min', 'max'):      # costs outside a pixel's interval are NaN and stay NaN after the disparity step
         J.append({'mod': 'vf.harness.c03', 'fn': 'wta', 'mode': 'sym', 'args': {'R': 2, 'C': 2, 'D': 3, 'measure': m, 'cap': cap}})
+    # the interval handed to the matching cost by the state machine is the requested one (left) / its negation (right), whatever the
+    # order of the band_disp coordinate of the dataset: real machine callbacks with EUF stub steps (E3)
+    from .e3common import run_e3
+    e3 = run_e3(ctx, 'C09', 4 if ctx.quick else 5, word_filter=lambda w: 9 not in w, histories=False, mirror=False, chunks=6)
+    ctx.replay_all(e3, 'vf.harness.e3jobs', 'replay')
     by_mod = {}
     for r in ctx.run_jobs(J, timeout=1500 if ctx.quick else 5400):
         for cx in ctx.absorb(r):
